@@ -94,10 +94,41 @@ def same_message(a, b):
     return a.to_dict() == b.to_dict()
 
 
-def make_valid(rng, templates, direction_in, packet_id):
+# Messages whose *content* the proxy itself looks at on the way through (no addon involved): owner-say chat is scanned for
+# RLV-style "@command" text, region handshakes for the region name, agent data updates for the active group.  None of that
+# makes the proxy the owner of the datagram - whatever the text is, it still has to arrive.
+OWNER_SAY_TEXTS = ["@version=1234", "@detach=n", " @detach=n", "\n@version=1", "\t@sit:00000000-0000-0000-0000-000000000001=force ",
+                   "@", "@@", "@,", "@,,", "@=", "@:", "@:=", "@a:b;c=d,e=f", "@ a = b ", "hello @you", "", " ", "@" * 40,
+                   "@clear", "@getstatus=2222", "@\x00", "@versi\u00e9n=1", "@a=b,", ",@a=b"]
+OWNER_SAY_BYTES = [b"@version=1234", b"@", b"@\xff\xfe=n", b"@a=b\x00\x00", b" @x=n", b"@,"]
+
+
+def _inspected_content(rng, name, spec):
+    if name == "ChatFromSimulator" and rng.random() < 0.8:
+        for (bn, ents) in spec["blocks"]:
+            for e in ents or ():
+                if "ChatType" in e:
+                    e["ChatType"] = ["i", rng.choice([8, 8, 8, 0, 1, 9])]
+                    if rng.random() < 0.75:
+                        e["Message"] = ["s", rng.choice(OWNER_SAY_TEXTS)]
+                    else:
+                        e["Message"] = ["b", rng.choice(OWNER_SAY_BYTES)]
+    elif name == "ChatFromViewer" and rng.random() < 0.5:
+        for (bn, ents) in spec["blocks"]:
+            for e in ents or ():
+                if "Message" in e:
+                    e["Message"] = ["s", rng.choice(["/524 help", "@version=1", "/me waves", "", "/524", "/1 x"])]
+
+
+def make_valid(rng, templates, direction_in, packet_id, ctx=None):
     """A template-conformant datagram (reference-encoded) that the proxy has no reason to claim."""
+    by_name = {t.name: t for t in templates}
     for _ in range(50):
         tmpl = rng.choice(templates)
+        if rng.random() < 0.12:
+            # the handful of messages the proxy reads on the way through get their share of the traffic
+            tmpl = by_name.get(rng.choice(["ChatFromSimulator", "RegionHandshake", "AgentDataUpdate", "AgentMovementComplete"]
+                                          if direction_in else ["ChatFromViewer", "AgentUpdate", "CompleteAgentMovement"]), tmpl)
         if tmpl.name in SIDE_EFFECT or tmpl.name in ("PacketAck",):
             continue
         if direction_in and banned_inbound(tmpl.name):
@@ -112,10 +143,19 @@ def make_valid(rng, templates, direction_in, packet_id):
                 for e in ents or ():
                     if "Channel" in e and e["Channel"][1] == 524:
                         e["Channel"] = ["i", 0]
+        _inspected_content(rng, tmpl.name, spec)
         try:
             data = wire.ref_encode(tmpl, spec)
-            msg = decode(data)
         except Exception:
+            continue
+        try:
+            msg = decode(data)
+        except Exception as e:
+            # the datagram is valid by construction (independent encoder, in-domain values): a decoder that refuses it
+            # would make the proxy discard it
+            if ctx is not None:
+                ctx.violation("valid-datagram-undecodable:" + _msgclass(tmpl.name), "a template-conformant datagram does not decode",
+                              {"message": tmpl.name, "datagram": data[:300], "exc": repr(e)[:300]})
             continue
         return tmpl.name, data, msg
     raise RuntimeError("could not build a valid datagram")
@@ -194,12 +234,17 @@ def _run_sequence(ctx, rng, rig, seq_seed, same_ip):
         a = assocs[assoc_idx]
         pid = circ.in_id if direction_in else circ.out_id
         if prepared_name is None:
-            name, data, msg = make_valid(rng, templates, direction_in, pid)
+            name, data, msg = make_valid(rng, templates, direction_in, pid, ctx)
         else:
             # a message with a side effect on the circuit (CloseCircuit / DisableSimulator): the circuit is open when it
             # arrives, so it has to be forwarded like any other datagram
             name, data = prepared_name, simple_msg(prepared_name, pid)
-            msg = decode(data)
+            try:
+                msg = decode(data)
+            except Exception as e:
+                ctx.violation("valid-datagram-undecodable:" + _msgclass(name), "a template-conformant datagram does not decode",
+                              {"message": name, "datagram": data[:300], "exc": repr(e)[:300]})
+                return
             ctx.count("closing_messages_checked")
         if direction_in:
             circ.in_id += 1
